@@ -126,7 +126,7 @@ func newRig(ti *terminfo.Terminfo, cs, locale string, wd, ht int) *rig {
 			}
 		}
 	}
-	q := vt.Quirks{AcsMap: m, AltFont: ti.EnterAcs == "\x1b[11m", FFClears: strings.HasPrefix(ti.Name, "sun"), NoAutoWrap: !ti.AutoMargin}
+	q := vt.Quirks{AcsMap: m, AltFont: ti.EnterAcs == "\x1b[11m" || ti.EnterAcs == "\x1b[12m", FFClears: strings.HasPrefix(ti.Name, "sun"), NoAutoWrap: !ti.AutoMargin}
 	r.term = vt.New(wd, ht, r.enc, q)
 	r.tty = common.NewFakeTty(r.term, wd, ht)
 	c := *ti
@@ -225,7 +225,7 @@ func termClass(ti *terminfo.Terminfo) string {
 	switch {
 	case ti.EnterAcs == "":
 		return "no-acs"
-	case ti.EnterAcs == "\x1b[11m":
+	case ti.EnterAcs == "\x1b[11m" || ti.EnterAcs == "\x1b[12m":
 		return "cp437-acs"
 	case ti.EnterAcs == "\x0e":
 		return "dec-acs-so"
@@ -339,6 +339,69 @@ func sweep(entries []common.Entry) {
 		}
 	}
 	w.Sample(map[string]interface{}{"sweep": "xterm-256color / ISO8859-1 / U+2500 (RuneHLine)", "expect": "ESC(0 q ESC(B -> the terminal shows U+2500; CanDisplay(r,false)=true"})
+}
+
+// acsAll: every database entry (not only the four class representatives) x three single-byte
+// charsets x every rune with a DEC special-graphics identity: the cell must show that glyph
+// if the description offers it (else fallback / '?'), nothing else may appear on the row, and
+// the byte stream must be well-formed (padding specifications are not text).
+func acsAll(entries []common.Entry) {
+	var runes []rune
+	for _, g := range acsNames {
+		runes = append(runes, g)
+	}
+	sort.Slice(runes, func(i, j int) bool { return runes[i] < runes[j] })
+	css := [][2]string{{"US-ASCII", "C"}, {"ISO8859-1", "en_US.ISO8859-1"}, {"KOI8-R", "ru_RU.KOI8-R"}}
+	item := 1000
+	for _, e := range entries {
+		if !strings.HasPrefix(e.Ti.SetCursor, "\x1b[%i%p1%d;%p2%dH") {
+			continue // the reference terminal decodes the ECMA-48 family only
+		}
+		for _, cs := range css {
+			item++
+			if !hc.Mine(item) {
+				continue
+			}
+			if w.Expired() {
+				return
+			}
+			r := newRig(e.Ti, cs[0], cs[1], 6, 1)
+			cls := termClass(e.Ti)
+			r.s.Show()
+			for _, g := range runes {
+				if asymmetric(r.enc, g) {
+					continue
+				}
+				w.R.Evaluations++
+				chars, canPlain, _ := r.expect(g)
+				r.s.SetContent(0, 0, 'x', nil, tcell.StyleDefault)
+				r.s.SetContent(1, 0, g, nil, tcell.StyleDefault)
+				r.s.SetContent(2, 0, ' ', nil, tcell.StyleDefault)
+				r.s.SetContent(3, 0, ' ', nil, tcell.StyleDefault)
+				r.s.SetContent(4, 0, 'y', nil, tcell.StyleDefault)
+				r.s.Sync()
+				ctx := fmt.Sprintf("%s (%s), charset %s, ACS rune U+%04X", e.Name, cls, cs[0], g)
+				if sig, d := r.health(ctx); sig != "" {
+					w.Violation("acs-all:"+sig+":"+e.Name, d, map[string]interface{}{"entry": e.Name, "charset": cs[0], "rune": g})
+					continue
+				}
+				exp := append([]rune{'x'}, chars...)
+				for len(exp) < 4 {
+					exp = append(exp, ' ')
+				}
+				exp = append(exp, 'y', ' ')
+				row := r.rowText(0)
+				if !r.sameGlyphs(row, exp) {
+					w.Violation("acs-all:row:"+e.Name+":"+cs[0], fmt.Sprintf("%s: the terminal row shows %q, want %q", ctx, string(row), string(exp)), map[string]interface{}{"entry": e.Name, "charset": cs[0], "rune": g})
+				}
+				if got := r.s.CanDisplay(g, false); got != canPlain {
+					w.Violation("acs-all:candisplay:"+e.Name+":"+cs[0], fmt.Sprintf("%s: CanDisplay(r,false) = %v, want %v", ctx, got, canPlain), map[string]interface{}{"entry": e.Name, "charset": cs[0], "rune": g})
+				}
+				w.AddDistinct(1)
+			}
+			r.s.Fini()
+		}
+	}
 }
 
 // ---- fallback registration histories ----
@@ -478,6 +541,7 @@ func main() {
 		return
 	}
 	sweep(entries)
+	acsAll(entries)
 	histories(entries)
 	w.Finish()
 }
